@@ -160,7 +160,13 @@ def check_table(sk, lang, tier, found, stats):
                 if same_type:
                     cands = [target]
                 else:
+                    syntactic_supertypes.illformed = False
                     cands = syntactic_supertypes(tb, target) if target[0] == 'c' else [target]
+                    if syntactic_supertypes.illformed:
+                        # the supertype of this target is not expressible without capture (C06's recorded finding):
+                        # nothing to compare with
+                        stats['skipped_illformed_supertype'] = stats.get('skipped_illformed_supertype', 0) + 1
+                        continue
                 ok = False
                 why = ''
                 for c in cands:
@@ -226,6 +232,8 @@ def syntactic_supertypes(tb, S):
             r = subst_args(s, m)
             if r is not None:
                 stack.append(r)
+            else:
+                syntactic_supertypes.illformed = True     # a projection substituted into a projected position
     return out
 
 
